@@ -13,7 +13,7 @@ import z3
 
 from . import extract
 from .explore import PathEnd, NeedFork
-from .sym import (Sym, SBool, SInt, SStr, SSeq, SSet, SRef, SObj, MutSet, Opt, Maybe, OutOfSubset, B, I, S, And, Or, Not,
+from .sym import (EngineValue, Sym, SBool, SInt, SStr, SSeq, SSet, SRef, SObj, MutSet, Opt, Maybe, OutOfSubset, B, I, S, And, Or, Not,
                   has_sym, kind_of, concrete_of, KSet, KSeq, KStr, KInt, KBool, simp, str_of_int)
 
 
@@ -42,7 +42,7 @@ class _Continue(Exception):
     pass
 
 
-class Closure:
+class Closure(EngineValue):
     """A function being interpreted: extracted definition + environment."""
 
     def __init__(self, ext, globs, cells=None, name=None, defaults=None, kwdefaults=None, node=None, real=None):
@@ -59,7 +59,7 @@ class Closure:
         return f"<Closure {self.name}>"
 
 
-class BoundMethod:
+class BoundMethod(EngineValue):
     def __init__(self, obj, func):
         self.obj, self.func = obj, func
 
@@ -165,7 +165,7 @@ class Interp:
         self.models = dict(_m.MODELS)
         if models:
             self.models.update(models)
-        self.bounded = bounded  # None, or dict(unroll=K)
+        self.bounded = bounded if bounded is not None else getattr(ex, "mode", None)  # None, or dict(unroll=K)
         self.depth = 0
         self.label = label
         self.pure = 0
@@ -1104,14 +1104,14 @@ class _GlobFrame(Frame):
         self.globals = globs
 
 
-class Chunk:
+class Chunk(EngineValue):
     """A symbolic run of yielded items inside a generator's output."""
 
     def __init__(self, seq):
         self.seq = seq
 
 
-class GenResult:
+class GenResult(EngineValue):
     """Eagerly collected output of a generator call (items and symbolic chunks).
     Assumption (listed in the evidence): generators under contract have no
     side effects that a consumer could observe between items."""
